@@ -412,6 +412,9 @@ func metaXLSX(c XCase) vr.Meta {
 	if len(c.WB.Decoys) > 0 {
 		lab = append(lab, "xlsx:decoy-parts")
 	}
+	if c.WB.Opt.StaleRels {
+		lab = append(lab, "xlsx:stale-workbook.rels")
+	}
 	for _, s := range c.WB.Sheets {
 		if s.Missing {
 			lab = append(lab, "xlsx:missing-part")
